@@ -1,4 +1,5 @@
 import EpdVerif.AuditCmd
 import EpdVerif.Props.C08
+import EpdVerif.Props.C08Big
 import EpdVerif.Props.Panels
 #audit_namespace EpdVerif.Props.C08
